@@ -63,8 +63,10 @@ def run(tier):
     for L in lens:
         firsts = [-1] if L <= 2 else list(range(8))
         for F in firsts:
-            jobs.append(("_history", base_tmo if L <= 3 else 900, {"C14_LEN": str(L), "C14_FIRST": str(F)}, L <= 3))
-            meta.append(("history", L, F))
+            # the slice whose first operation is configure_agents is split by the parity of its argument (one or two types named)
+            for P in ((0, 1) if (F == 4 and L >= 3) else (-1,)):
+                jobs.append(("_history", base_tmo if L <= 3 else 900, {"C14_LEN": str(L), "C14_FIRST": str(F), "C14_FPAR": str(P)}, L <= 3))
+                meta.append(("history", L, F))
     for L in lens[:2]:
         jobs.append(("_history_twin", 60, {"C14_LEN": str(L), "C14_FIRST": "-1"}, True))
         meta.append(("twin", L, -1))
